@@ -23,15 +23,17 @@ pub struct EwCfg {
     pub clients: Vec<EndpointConfig>,
     /// forced handshake nonces, in order of generation (client 0 SYN, server SYN-ACK, ...); empty = seeded generator
     pub nonces: Vec<u32>,
+    /// the server application greets every address it is told has connected (raw peers included) with one Reliable packet of this many bytes (0 = no greeting)
+    pub greet: usize,
 }
 
 impl EwCfg {
     pub fn new(n_clients: usize) -> Self {
-        Self { server: EndpointConfig::default(), max_total: 4096, max_active: 32, handshake_errors: true, clients: vec![EndpointConfig::default(); n_clients], nonces: vec![] }
+        Self { server: EndpointConfig::default(), max_total: 4096, max_active: 32, handshake_errors: true, clients: vec![EndpointConfig::default(); n_clients], nonces: vec![], greet: 0 }
     }
     pub fn name(&self) -> String {
         let ec = |c: &EndpointConfig| format!("s{}r{}p{}a{}k{}.{}t{}", c.max_send_rate, c.max_receive_rate, c.max_packet_size, c.max_receive_alloc, c.keepalive as u8, c.keepalive_interval_ms, c.active_timeout_ms);
-        format!("srv[{}]mt{}ma{}he{}|cl[{}]|n{:x?}", ec(&self.server), self.max_total, self.max_active, self.handshake_errors as u8, self.clients.iter().map(ec).collect::<Vec<_>>().join(","), self.nonces)
+        format!("srv[{}]mt{}ma{}he{}|cl[{}]|n{:x?}", ec(&self.server), self.max_total, self.max_active, self.handshake_errors as u8, self.clients.iter().map(ec).collect::<Vec<_>>().join(","), self.nonces) + &(if self.greet > 0 { format!("|greet{}", self.greet) } else { String::new() })
     }
 }
 
@@ -322,6 +324,7 @@ pub fn run_ew(cfg: &EwCfg, script: &[EwOp], env: &EwEnv, ch: &mut Chooser) -> Ew
                 };
                 let ci = client_index(&addr).filter(|c| *c < n).unwrap_or(n);
                 if ev == Ev::Connect && ci < n { tr.s_connect_round[ci] = Some(round); }
+                if ev == Ev::Connect && cfg.greet > 0 && ci >= n { if let Some(rc) = srv.client(&addr) { rc.borrow_mut().send(vec![0x47u8; cfg.greet].into_boxed_slice(), 0, SendMode::Reliable); } }
                 let gen = if ci < n { tr.gens[ci] } else { 0 };
                 tr.sev[ci].push(EvRec { round, t_ms: now, ev, gen });
             }
